@@ -928,6 +928,7 @@ impl Session {
             SessionState::BeginSent => r is Ok && final(self).local_state == SessionState::Mapped,
             _ => r is Err && *final(self) == *old(self),
         },                                                                              // [C13.session.begin-received] begin accepted only when expected; otherwise refused with nothing changed
+        r is Err ==> r->Err_0 is IllegalState,                                          // [C14.session.begin-refusal-is-local] a begin that arrives in the wrong state is refused with a local reason, never reported as the peer having ended the session
         r is Ok ==> final(self).incoming_channel == Some(channel)
             && final(self).next_incoming_id == begin.next_outgoing_id                   // [C07.begin.next-incoming-id] counting starts from the peer's stated value
             && final(self).remote_incoming_window == begin.incoming_window              // [C07.begin.window] window starts at the peer's incoming-window (nothing sent yet)
@@ -943,7 +944,8 @@ impl Session {
 //@@ param writer : &mut ChanSender<SessionFrame>
 //@@ subst `self.incoming_channel.map(Into::into)` => `self.incoming_channel.map(|c: IncomingChannel| -> (o: u16) ensures o == c.0 { c.0 })` rule=R17
 //@@ subst `.clone().map(Into::into)` => `.clone()` rule=R16
-//@@ subst `|_v0|` => `|_v0: ChanSendError|` rule=optional-R5
+//@@ subst `|_v0| {` => `|_v0: ChanSendError| -> (o: SessionStateError) ensures o is ConnectionStopped {` rule=R18 unless `map_err`
+//@@ subst `|_v1| {` => `|_v1: ChanSendError| -> (o: SessionStateError) ensures o is ConnectionStopped {` rule=R18 unless `map_err`
 //@@ spec
     ensures
         *final(self) == (Session { local_state: final(self).local_state, ..*old(self) }),          // [C13.session.begin-frame-only-state] only the state changes
@@ -964,6 +966,7 @@ impl Session {
             &&& f.body->Begin_0.remote_channel == (match old(self).incoming_channel { Some(c) => Some(c.0), None => None::<u16> })
         }),
         r is Err ==> final(writer).sent@ == old(writer).sent@,                                      // [C13.session.begin-err-nothing-sent]
+        r is Err ==> r->Err_0 is IllegalState || r->Err_0 is ConnectionStopped,                      // [C14.session.begin-failure-is-local] a begin that cannot be sent fails with a LOCAL reason (wrong state, connection gone): it is never reported as the peer having ended the session
 //@@ end
 
 //@@ fn file=fe2o3-amqp/src/session/mod.rs impl=`impl endpoint::Session for Session` name=send_end
